@@ -4,7 +4,7 @@
 EXTENDS ModelSpace
 CONSTANTS MaxLinks, NModels
 VARIABLE model
-ModelsOnlyInit == \E n \in 1..MaxLinks : \E g \in RandomSubset(NModels, Genomes(n)) : model = DecodeModel(g, n)
+ModelsOnlyInit == \E n \in 1..MaxLinks : \E g \in Genomes(NModels, n) : model = DecodeModel(g, n)
 ModelsOnlyNext == UNCHANGED model
 ModelWellFormed == WellFormed(model)
 =====================================================================================
